@@ -59,16 +59,20 @@ type variant struct {
 	trustedH uint64
 	within   time.Duration // offset of "within" untrusted time relative to now+drift (negative)
 	gap      uint64        // distance for gt1
+	chain    string        // the trusted header's chain id
+	other    string        // a different chain id (used when the input says the ids differ)
 }
 
 func variants(thorough bool) []variant {
-	v := []variant{{100, -11 * time.Second, 5}}
+	// the second quick variant differs from the first only in what "a different chain id" looks like: ids are compared
+	// as exact strings, so an id that differs in case only is a different chain
+	v := []variant{{100, -11 * time.Second, 5, "c", "other"}, {100, -11 * time.Second, 5, "mocha-4", "Mocha-4"}}
 	if thorough {
 		v = append(v,
-			variant{1, -time.Nanosecond, 2},
-			variant{1 << 63, -10 * time.Second, 1 << 62},
-			variant{^uint64(0) - 2, -time.Hour, 2},
-			variant{7, -365 * 24 * time.Hour, 1000000},
+			variant{1, -time.Nanosecond, 2, "c", "C"},
+			variant{1 << 63, -10 * time.Second, 1 << 62, "kchain", "\u212achain"},
+			variant{^uint64(0) - 2, -time.Hour, 2, "c", "c "},
+			variant{7, -365 * 24 * time.Hour, 1000000, "c", "cc"},
 		)
 	}
 	return v
@@ -104,10 +108,10 @@ func build01(in map[string]any, v variant, now time.Time, drift time.Duration) (
 	case "gt1":
 		uh = v.trustedH + v.gap
 	}
-	t = &vh.Header{Chain: "c", H: v.trustedH, T: tt.UnixNano()}
-	chain := "c"
+	t = &vh.Header{Chain: v.chain, H: v.trustedH, T: tt.UnixNano()}
+	chain := v.chain
 	if !mbt.Bool(in, "chainEq") {
-		chain = "other"
+		chain = v.other
 	}
 	u = &vh.Header{Chain: chain, H: uh, T: ut.UnixNano(), Prev: t.Hash(), TypeRes: mbt.Str(in, "typeRes")}
 	if mbt.Bool(in, "tZero") {
@@ -188,7 +192,8 @@ func build02(c map[string]any, now time.Time, drift time.Duration) (*vh.Header, 
 		case "zero":
 			e = nil
 		case "wrongchain":
-			e = &vh.Header{Chain: "other", H: cur.H + 1, T: cur.T + int64(time.Second), Prev: cur.Hash()}
+			// (a chain id that differs in case only is a different chain as well)
+			e = &vh.Header{Chain: []string{"other", "C"}[len(seq)%2], H: cur.H + 1, T: cur.T + int64(time.Second), Prev: cur.Hash()}
 		case "timeback":
 			e = &vh.Header{Chain: "c", H: cur.H + 1, T: cur.T - int64(time.Second), Prev: cur.Hash()}
 		case "future":
